@@ -309,6 +309,10 @@ func c18r2(c *core.Ctx) {
 				if call, isC := core.Args(i)[0].(*ssa.Call); isC && core.Callee(call) != nil && cn(core.Callee(call)) == "dir" {
 					ok = true
 				}
+				// the accessor written out: the directory field itself
+				if _, isDir := core.FieldLoad(core.Args(i)[0], tFileStorage, "dirPath"); isDir {
+					ok = true
+				}
 			}
 		})
 		c.Check(ok, "listing-directory", f.Pos(), "KeysWithSuffix lists the storage directory", "KeysWithSuffix does not list the storage directory")
@@ -477,7 +481,7 @@ func c18r4(c *core.Ctx) {
 	}
 	// the database keeps no state besides the storage handle
 	if pk := p.Pkg("db"); pk != nil {
-		if tn, ok := pk.Types.Scope().Lookup("database").(*types.TypeName); ok {
+		if tn := p.LookupType("db", "database"); tn != nil {
 			st := tn.Type().Underlying().(*types.Struct)
 			extra := []string{}
 			for i := 0; i < st.NumFields(); i++ {
@@ -778,7 +782,7 @@ func loopsIn(f *ssa.Function) bool {
 // carriesWriteErr: the error result of (*os.File).Write is among the sources of v, directly or as what a same-package helper
 // returns ( err = writeAndClose(file, value) ).
 func carriesWriteErr(v ssa.Value, depth int) bool {
-	return core.AnySource(v, func(s ssa.Value) bool {
+	return core.SomeSource(v, func(s ssa.Value) bool { // the returned error merges the write and the close error
 		if e, isE := s.(*ssa.Extract); isE {
 			if call, isC := e.Tuple.(*ssa.Call); isC && core.IsCall(call, "(*os.File).Write") {
 				return true
